@@ -14,6 +14,7 @@ Expected(e) == StructErrors(S(e), Rows(e), e.sid)
 Lines(errs, warns) == [i \in 1..(Len(errs) + Len(warns)) |->
                          IF i <= Len(errs) THEN <<"Error", errs[i]>> ELSE <<"Warning", warns[i - Len(errs)]>>]
 Verdict(e) ==
+  IF e.outcome = "order" THEN (IF e.fwd = e.rev THEN "ok" ELSE "verdict_depends_on_what_was_validated_before") ELSE
   LET exp == Expected(e) obs == SetOf(e.errors) IN
   IF e.outcome # "report" THEN "validate_raised"
   ELSE IF \E x \in exp : x \notin obs THEN (IF \E x \in exp : x \notin obs /\ x[1] = "missing" THEN "missing_required_child_not_reported"
@@ -31,7 +32,7 @@ Init == l = 1 /\ nontriv = 0 /\ failed = 0
 Next == /\ l <= Len(Events)
         /\ LET e == Events[l]
                v == Verdict(e)
-               pm == Expected(e) # {}
+               pm == IF e.outcome = "order" THEN TRUE ELSE Expected(e) # {}
            IN /\ IF v = "ok" THEN TRUE ELSE PrintT(<<"V", e.id, v>>)
               /\ nontriv' = nontriv + (IF pm THEN 1 ELSE 0)
               /\ failed' = failed + (IF v = "ok" THEN 0 ELSE 1)
